@@ -67,6 +67,8 @@ pub struct Svc {
     /// everything the service sent to its handler so far (drained by `take_outbox`)
     pub outbox: Vec<HandlerIn>,
     pub event_log: Vec<Event>,
+    /// when false, events stay in the service's event channel (to let it fill up)
+    pub drain_events: bool,
 }
 
 pub fn svc_addr4(key_idx: u32) -> SocketAddr {
@@ -203,7 +205,7 @@ impl Svc {
         let id = enr.node_id().raw();
         let mut d = Discv5::new(enr, keys::key(cfg.key_idx), config).expect("discv5");
         let h = d.start_scripted().await.expect("scripted start");
-        let mut s = Svc { d, h, events: None, key, id, addr4: a4, addr6: a6, outbox: vec![], event_log: vec![] };
+        let mut s = Svc { d, h, events: None, key, id, addr4: a4, addr6: a6, outbox: vec![], event_log: vec![], drain_events: true };
         if cfg.register_events {
             let fut = s.d.event_stream();
             let rx = fut.await.expect("event stream");
@@ -226,7 +228,7 @@ impl Svc {
                 self.outbox.push(m);
                 progressed = true;
             }
-            if let Some(rx) = self.events.as_mut() {
+            if let (true, Some(rx)) = (self.drain_events, self.events.as_mut()) {
                 while let Ok(e) = rx.try_recv() {
                     self.event_log.push(e);
                     progressed = true;
